@@ -328,3 +328,9 @@ PROPS["C08"]["quick"].append({"variant": "checks", "cases": 6000, "params": {"mo
 PROPS["C08"]["thorough"].append({"variant": "default", "cases": 400000, "params": {"mode": "hist", "lang": "all"}, "timeout": 3000})
 PROPS["C08"]["thorough"].append({"variant": "checks", "cases": 200000, "params": {"mode": "hist", "lang": "all"}, "timeout": 3000})
 PROPS["C08"]["floors"]["any"].update({"histories_arith": 1000, "histories_pay": 1000, "histories_nest": 1000})
+
+# C09 with a non-trivial analysis attached (the C14 world ends every history with lookup / re-insertion probes of all inserted terms)
+PROPS["C09"]["quick"].append({"variant": "default", "cases": 4000, "worker_prop": "C14", "timeout": 900})
+PROPS["C09"]["thorough"].append({"variant": "default", "cases": 100000, "params": {"case_timeout": 120}, "worker_prop": "C14", "timeout": 3400})
+PROPS["C09"]["floors"]["any"]["probes_with_analysis"] = 5000
+PROPS["C14"]["floors"]["any"]["probes_with_analysis"] = 2000
